@@ -13,7 +13,7 @@ namespace Fcp.Refl
 open Fcp
 set_option linter.unusedSimpArgs false
 
-def okStr (s : Str) : Bool := s.length < 2^32 && s.all (· < 128)
+def okStr (s : Str) : Bool := s.length < 2^32 && utf8Valid s
 def okI32 (i : Int) : Bool := -(2^31 : Int) ≤ i && i < 2^31
 def okU32 (i : Int) : Bool := 0 ≤ i && i < 2^32
 
@@ -278,14 +278,16 @@ theorem okChain_of_small (t : RTy) (h : smallTy t = true) : okChain t = true := 
   | u n =>
     have := natCodes_ok n
     simp only [smallTy, decide_eq_true_eq] at h
-    simp only [okChain, okStr, List.length_cons, List.all_cons, this.1, Bool.and_true, Bool.and_eq_true,
-      decide_eq_true_eq]
+    have hv : utf8Valid (117 :: natCodes n) = true :=
+      utf8Valid_of_ascii _ (by simp only [List.all_cons, this.1, Bool.and_true, decide_eq_true_eq]; omega)
+    simp only [okChain, okStr, List.length_cons, hv, Bool.and_true, decide_eq_true_eq]
     omega
   | i n =>
     have := natCodes_ok n
     simp only [smallTy, decide_eq_true_eq] at h
-    simp only [okChain, okStr, List.length_cons, List.all_cons, this.1, Bool.and_true, Bool.and_eq_true,
-      decide_eq_true_eq]
+    have hv : utf8Valid (105 :: natCodes n) = true :=
+      utf8Valid_of_ascii _ (by simp only [List.all_cons, this.1, Bool.and_true, decide_eq_true_eq]; omega)
+    simp only [okChain, okStr, List.length_cons, hv, Bool.and_true, decide_eq_true_eq]
     omega
   | arr e n ih =>
     simp only [smallTy, Bool.and_eq_true, decide_eq_true_eq] at h
